@@ -1018,6 +1018,16 @@ def _op2_shard(sh, params):
                 if blocks[j]["kind"] == blocks[0]["kind"]:
                     blocks[j]["name"] = blocks[0]["name"]
                     break
+        if nb > 1 and li % 4 == 1:
+            # one name used by a matrix AND by a later table (rdop2mats reads the matrix
+            # occurrences only)
+            mi = [j for j, b in enumerate(blocks) if b["kind"] == "matrix"]
+            ti = [j for j, b in enumerate(blocks) if b["kind"] == "table"]
+            pair = [(a, t_) for a in mi for t_ in ti if t_ > a]
+            if pair:
+                a, t_ = pair[int(r.integers(0, len(pair)))]
+                blocks[t_]["name"] = blocks[a]["name"]
+                sh.count("cell:op2-name-shared-by-matrix-and-table")
         if nb > 1 and r.random() < 0.3:           # common prefix for the wildcard
             for b in blocks[:2]:
                 b["name"] = ("KX" + b["name"])[:8]
